@@ -13,7 +13,7 @@ fn rel(b: &mut Bytes) -> Rel {
 }
 
 fuzz_target!(|data: &[u8]| {
-    fbv_fuzz::engine::install_panic_hook();
+    fbv_fuzz::hook("C04");
     let mut b = Bytes::new(data);
     let kind = b.u8();
     let virtio = chain_from(&mut b);
